@@ -298,6 +298,9 @@ func (o *Obs) fill(c Cfg, r runResult, resumed bool) {
 	o.PostClass = r.p.Obs.PostAuthClass
 	// the stream's real state is what is on the wire
 	o.KeyE = o.AppClass != "clear"
+	if o.AppClass == "unobserved" {
+		o.KeyE = o.IsEncrypted
+	}
 	if !resumed && o.PostClass != "" {
 		o.PostAuth = classOf(o.PostClass)
 	}
@@ -314,6 +317,9 @@ func Run(g *Group) Obs {
 		}
 		r := handshake(c, c.realConfig(cache), c.peerConfig(g.Devs, false))
 		o.fill(c, r, false)
+		if c.Role == "server" && r.neg != nil {
+			security.InvalidateSession(r.neg.SessionId) // keep the process-wide cache small
+		}
 		return o
 	}
 	// resumed: establish the session with an honest peer first
